@@ -130,6 +130,41 @@ def _natural_loops(b):
     return list(merged.items())
 
 
+def _writes_return(b, x):
+    blk = b.blocks[x]
+    return any(st["dst"]["l"] == 0 for st in blk["stmts"]) or (blk["term"]["k"] == "call" and blk["term"]["dst"]["l"] == 0)
+
+
+def _return_const_sig(b, x):
+    """signature of a constant stored whole into the return place in block x: nested unit variants / literals only."""
+    def sig_of(rv, depth=0):
+        if depth > 3:
+            return None
+        if rv.get("k") == "agg":
+            parts = []
+            for o in rv.get("ops", []):
+                if o.get("k") == "const":
+                    parts.append(("c", o.get("ty"), o.get("val")))
+                elif o.get("k") in ("copy", "move") and not o["pl"]["p"]:
+                    # an operand built in the same block from constants (`Ok(Verdict::Rejected)`)
+                    inner = [st["rv"] for st in b.blocks[x]["stmts"] if st["dst"]["l"] == o["pl"]["l"] and not st["dst"]["p"]]
+                    sg = sig_of(inner[-1], depth + 1) if inner else None
+                    if sg is None:
+                        return None
+                    parts.append(sg)
+                else:
+                    return None
+            return ("agg", rv.get("adt"), rv.get("variant"), tuple(parts))
+        if rv.get("k") == "use" and rv.get("ops") and rv["ops"][0].get("k") == "const":
+            return ("c", rv["ops"][0].get("ty"), rv["ops"][0].get("val"))
+        return None
+    out = None
+    for st in b.blocks[x]["stmts"]:
+        if st["dst"]["l"] == 0 and not st["dst"]["p"]:
+            out = sig_of(st["rv"])
+    return out
+
+
 FILLS = ("push", "push_back", "push_front", "insert", "extend", "extend_from_slice")
 
 
@@ -278,14 +313,35 @@ def check_every_path(ctx, anchor, a_starts, b_starts, cut_sponge=True):
             for (h2, body2) in loops:
                 if body2 & sites:
                     passing.add(h2)
-            seen = set()
-            st = [0]
-            while st:
-                x = st.pop()
-                if x in seen or x in passing or x in refusing or b.blocks[x]["cleanup"]:
+            # a path that skips the comparison may end in *another* constant verdict than the paths that pass it (a
+            # custom `Verdict::PathRejected` next to `Verdict::Accepted`): that is an exit of its own, which the caller
+            # has to tell apart. Ending in the same result as the passing paths - or in a computed one - is a bypass.
+            pass_sigs = set()
+            seen2, st2 = set(), list(passing)
+            while st2:
+                x = st2.pop()
+                if x in seen2 or b.blocks[x]["cleanup"]:
                     continue
-                seen.add(x)
+                seen2.add(x)
+                sg = _return_const_sig(b, x)
+                if sg is not None:
+                    pass_sigs.add(sg)
+                st2.extend(succ[x])
+            seen = set()
+            st = [(0, None)]
+            while st:
+                x, sig = st.pop()
+                if (x, sig) in seen or x in passing or x in refusing or b.blocks[x]["cleanup"]:
+                    continue
+                seen.add((x, sig))
+                sg = _return_const_sig(b, x)
+                if sg is not None:
+                    sig = sg
+                elif _writes_return(b, x):
+                    sig = "computed"
                 if b.blocks[x]["term"]["k"] == "return":
+                    if sig is not None and sig != "computed" and sig not in pass_sigs:
+                        continue
                     return False, "%s can return normally without comparing them" % bid, b.span
-                st.extend(succ[x])
+                st.extend((y, sig) for y in succ[x])
     return True, "compared on every non-refusing path (%d site(s))" % sum(len(v) for v in meet_blocks.values()), None
